@@ -1,28 +1,38 @@
 package main
 
 import (
+	"fmt"
 	"sort"
 	"strings"
 )
 
-// Trigger selection for quantifiers generated from specification expressions.
-// Candidates are array reads (select X v) / (select X (at O v)) and
-// applications of prelude functions that have a bound variable as a direct
-// argument; they never contain arithmetic.
+// Quantifiers generated from specification expressions.
+//
+// A specification quantifier ranges over a slice-relative index k, and the
+// element s[k] is the array read (select row (+ off k)). Arithmetic inside a
+// trigger makes E-matching miss instances, so each quantifier is emitted over an
+// absolute row position j instead: for every distinct offset term `off` under
+// which k is used as an index, one copy of the formula is produced in which
+// (+ off k) becomes the bound variable j itself (and every other k becomes
+// (- j off)); its triggers are the plain (select row j) terms. A copy over k
+// itself is produced when k indexes something directly (ghost arrays, prelude
+// functions). All copies are equivalent, and their conjunction is used.
 
 type sx struct {
 	atom string
 	kids []*sx
-	text string
 }
 
 func parseSx(s string) *sx {
 	pos := 0
 	var parse func() *sx
-	parse = func() *sx {
+	skip := func() {
 		for pos < len(s) && (s[pos] == ' ' || s[pos] == '\n' || s[pos] == '\t') {
 			pos++
 		}
+	}
+	parse = func() *sx {
+		skip()
 		if pos >= len(s) {
 			return nil
 		}
@@ -31,9 +41,7 @@ func parseSx(s string) *sx {
 			pos++
 			n := &sx{}
 			for {
-				for pos < len(s) && (s[pos] == ' ' || s[pos] == '\n' || s[pos] == '\t') {
-					pos++
-				}
+				skip()
 				if pos >= len(s) {
 					break
 				}
@@ -47,7 +55,6 @@ func parseSx(s string) *sx {
 				}
 				n.kids = append(n.kids, k)
 			}
-			n.text = s[start:pos]
 			return n
 		}
 		if s[pos] == '|' {
@@ -57,13 +64,37 @@ func parseSx(s string) *sx {
 			}
 			pos++
 		} else {
-			for pos < len(s) && s[pos] != ' ' && s[pos] != ')' && s[pos] != '(' && s[pos] != '\n' {
+			for pos < len(s) && s[pos] != ' ' && s[pos] != ')' && s[pos] != '(' && s[pos] != '\n' && s[pos] != '\t' {
 				pos++
 			}
 		}
-		return &sx{atom: s[start:pos], text: s[start:pos]}
+		return &sx{atom: s[start:pos]}
 	}
 	return parse()
+}
+
+func (n *sx) String() string {
+	if n.atom != "" || len(n.kids) == 0 && n.atom == "" && false {
+		return n.atom
+	}
+	var b strings.Builder
+	n.write(&b)
+	return b.String()
+}
+
+func (n *sx) write(b *strings.Builder) {
+	if n.kids == nil && n.atom != "" {
+		b.WriteString(n.atom)
+		return
+	}
+	b.WriteByte('(')
+	for i, k := range n.kids {
+		if i > 0 {
+			b.WriteByte(' ')
+		}
+		k.write(b)
+	}
+	b.WriteByte(')')
 }
 
 func (n *sx) head() string {
@@ -74,7 +105,7 @@ func (n *sx) head() string {
 }
 
 func (n *sx) mentions(v string) bool {
-	if n.atom != "" {
+	if n.kids == nil {
 		return n.atom == v
 	}
 	for _, k := range n.kids {
@@ -85,80 +116,96 @@ func (n *sx) mentions(v string) bool {
 	return false
 }
 
-var arithHeads = map[string]bool{"+": true, "-": true, "*": true, "div": true, "mod": true, "tdiv": true, "tmod": true, "<": true, "<=": true, ">": true, ">=": true, "=": true, "ite": true, "and": true, "or": true, "not": true, "=>": true, "absi": true}
+var arithHeads = map[string]bool{"+": true, "-": true, "*": true, "div": true, "mod": true, "tdiv": true, "tmod": true, "<": true, "<=": true, ">": true, ">=": true, "=": true, "ite": true, "and": true, "or": true, "not": true, "=>": true, "absi": true, "xor": true, "distinct": true}
 
-// clean reports whether the term is free of arithmetic / boolean structure
-// (suitable inside a trigger).
-func (n *sx) clean(bound map[string]bool) bool {
-	if n.atom != "" {
+func (n *sx) clean() bool {
+	if n.kids == nil {
 		return true
 	}
 	h := n.head()
-	if arithHeads[h] || h == "forall" || h == "exists" || h == "!" || h == "let" {
+	if arithHeads[h] || h == "forall" || h == "exists" || h == "!" || h == "let" || h == "" {
 		return false
 	}
 	for _, k := range n.kids[1:] {
-		if !k.clean(bound) {
+		if !k.clean() {
 			return false
 		}
 	}
 	return true
 }
 
-func patternsFor(body string, vars []string) string {
-	root := parseSx(body)
-	if root == nil {
-		return ""
+// isOffsetIndex recognises (+ O v) and returns O's text.
+func isOffsetIndex(idx *sx, v string) (string, bool) {
+	if idx.head() == "+" && len(idx.kids) == 3 && idx.kids[2].kids == nil && idx.kids[2].atom == v && !idx.kids[1].mentions(v) {
+		return idx.kids[1].String(), true
 	}
-	bound := map[string]bool{}
-	for _, v := range vars {
-		bound[v] = true
+	return "", false
+}
+
+// subst builds the copy of n for base offset O: (+ O v) -> j, other v -> (- j O).
+func subst(n *sx, v, base, j string) *sx {
+	if n.kids == nil {
+		if n.atom == v {
+			if base == "" {
+				return &sx{atom: j}
+			}
+			return parseSx("(- " + j + " " + base + ")")
+		}
+		return n
 	}
-	cands := map[string]map[string]bool{} // text -> vars mentioned
-	inner := map[string]int{} // variables bound by quantifiers nested inside the body
-	var walk func(n *sx, underQ bool)
-	walk = func(n *sx, underQ bool) {
-		if n.atom != "" {
+	if base != "" {
+		if o, ok := isOffsetIndex(n, v); ok && o == base {
+			return &sx{atom: j}
+		}
+	}
+	out := &sx{kids: make([]*sx, len(n.kids))}
+	for i, k := range n.kids {
+		out.kids[i] = subst(k, v, base, j)
+	}
+	return out
+}
+
+// triggersFor collects trigger candidates for bound variable j in term n:
+// array reads at index j and applications of uninterpreted functions with j as a direct argument.
+func triggersFor(root *sx, j string) []string {
+	seen := map[string]bool{}
+	var out []string
+	inner := map[string]int{}
+	var walk func(n *sx)
+	walk = func(n *sx) {
+		if n.kids == nil {
 			return
 		}
 		h := n.head()
-		isCand := false
-		if h == "select" && len(n.kids) == 3 {
-			idx := n.kids[2]
-			if bound[idx.atom] {
-				isCand = true
-			} else if idx.head() == "at" && len(idx.kids) == 3 && bound[idx.kids[2].atom] {
-				isCand = true
-			}
-		} else if h != "" && !arithHeads[h] && h != "forall" && h != "exists" && h != "!" && h != "select" && h != "store" && h != "at" {
+		cand := false
+		if h == "select" && len(n.kids) == 3 && n.kids[2].kids == nil && n.kids[2].atom == j {
+			cand = true
+		} else if h != "" && !arithHeads[h] && h != "forall" && h != "exists" && h != "!" && h != "select" && h != "store" && h != "let" {
 			for _, k := range n.kids[1:] {
-				if bound[k.atom] {
-					isCand = true
+				if k.kids == nil && k.atom == j {
+					cand = true
 				}
 			}
 		}
-		if isCand && n.clean(bound) {
-			// must not mention variables bound by inner quantifiers: approximated by
-			// rejecting candidates found under an inner quantifier that mention q_ names other than ours
+		if cand && n.clean() {
 			ok := true
-			ms := map[string]bool{}
-			var collect func(m *sx)
-			collect = func(m *sx) {
-				if m.atom != "" {
-					if bound[m.atom] {
-						ms[m.atom] = true
-					} else if inner[m.atom] > 0 {
+			var chk func(m *sx)
+			chk = func(m *sx) {
+				if m.kids == nil {
+					if inner[m.atom] > 0 {
 						ok = false
 					}
 					return
 				}
 				for _, k := range m.kids {
-					collect(k)
+					chk(k)
 				}
 			}
-			collect(n)
-			if ok && len(ms) > 0 {
-				cands[n.text] = ms
+			chk(n)
+			t := n.String()
+			if ok && !seen[t] {
+				seen[t] = true
+				out = append(out, t)
 			}
 		}
 		var bvs []string
@@ -173,73 +220,95 @@ func patternsFor(body string, vars []string) string {
 			inner[v]++
 		}
 		for _, k := range n.kids {
-			walk(k, underQ || h == "forall" || h == "exists")
+			walk(k)
 		}
 		for _, v := range bvs {
 			inner[v]--
 		}
 	}
-	walk(root, false)
-	if len(cands) == 0 {
-		return ""
-	}
-	var texts []string
-	for t := range cands {
-		texts = append(texts, t)
-	}
-	sort.Slice(texts, func(i, j int) bool {
-		if len(texts[i]) != len(texts[j]) {
-			return len(texts[i]) < len(texts[j])
+	walk(root)
+	sort.Slice(out, func(a, b int) bool {
+		if len(out[a]) != len(out[b]) {
+			return len(out[a]) < len(out[b])
 		}
-		return texts[i] < texts[j]
+		return out[a] < out[b]
 	})
-	// drop candidates that contain another candidate covering the same variables
-	var keep []string
-	for _, t := range texts {
-		redundant := false
-		for _, k := range keep {
-			if strings.Contains(t, k) && len(cands[k]) >= len(cands[t]) {
-				redundant = true
-				break
+	if len(out) > 4 {
+		out = out[:4]
+	}
+	return out
+}
+
+var quantCounter int
+
+func buildQuant(kind string, names []string, inner string) string {
+	root := parseSx(inner)
+	if root == nil || len(names) != 1 {
+		// multi-variable quantifiers: no index rewriting; let the solver choose triggers
+		var bs []string
+		for _, n := range names {
+			bs = append(bs, "("+n+" Int)")
+		}
+		return fmt.Sprintf("(%s (%s) %s)", kind, strings.Join(bs, " "), inner)
+	}
+	v := names[0]
+	// collect index bases
+	bases := []string{}
+	seen := map[string]bool{}
+	bare := false
+	var scan func(n *sx)
+	scan = func(n *sx) {
+		if n.kids == nil {
+			return
+		}
+		h := n.head()
+		if h == "select" && len(n.kids) == 3 {
+			idx := n.kids[2]
+			if idx.kids == nil && idx.atom == v {
+				bare = true
+			} else if o, ok := isOffsetIndex(idx, v); ok && !seen[o] {
+				seen[o] = true
+				bases = append(bases, o)
+			}
+		} else if h != "" && !arithHeads[h] && h != "forall" && h != "exists" && h != "store" && h != "!" {
+			for _, k := range n.kids[1:] {
+				if k.kids == nil && k.atom == v {
+					bare = true
+				}
 			}
 		}
-		if !redundant {
-			keep = append(keep, t)
+		for _, k := range n.kids {
+			scan(k)
 		}
 	}
-	var pats []string
-	var partial []string
-	for _, t := range keep {
-		if len(cands[t]) == len(vars) {
-			pats = append(pats, ":pattern ("+t+")")
+	scan(root)
+	if len(bases) > 3 {
+		bases = bases[:3]
+	}
+	var copies []string
+	mk := func(base string) {
+		quantCounter++
+		j := fmt.Sprintf("%s_a%d", v, quantCounter)
+		t := subst(root, v, base, j)
+		trig := triggersFor(t, j)
+		var pats []string
+		for _, p := range trig {
+			pats = append(pats, ":pattern ("+p+")")
+		}
+		if len(pats) > 0 {
+			copies = append(copies, fmt.Sprintf("(%s ((%s Int)) (! %s %s))", kind, j, t.String(), strings.Join(pats, " ")))
 		} else {
-			partial = append(partial, t)
+			copies = append(copies, fmt.Sprintf("(%s ((%s Int)) %s)", kind, j, t.String()))
 		}
 	}
-	if len(pats) == 0 && len(partial) > 0 {
-		// multi-pattern covering all variables
-		covered := map[string]bool{}
-		var mp []string
-		for _, t := range partial {
-			adds := false
-			for v := range cands[t] {
-				if !covered[v] {
-					adds = true
-				}
-			}
-			if adds {
-				mp = append(mp, t)
-				for v := range cands[t] {
-					covered[v] = true
-				}
-			}
-		}
-		if len(covered) == len(vars) {
-			pats = append(pats, ":pattern ("+strings.Join(mp, " ")+")")
-		}
+	if bare || len(bases) == 0 {
+		mk("")
 	}
-	if len(pats) > 4 {
-		pats = pats[:4]
+	for _, b := range bases {
+		mk(b)
 	}
-	return strings.Join(pats, " ")
+	if len(copies) == 1 {
+		return copies[0]
+	}
+	return "(and " + strings.Join(copies, " ") + ")"
 }
